@@ -279,12 +279,70 @@ fn log_phase(thorough: bool) -> Phase {
     }
 }
 
+/// PolyN (Horner, any length) at arguments whose square over/underflows while every term c_i*x^i stays in range.
+/// (For the fixed-degree forms the powers x^2, x^4, x^8 of their documented Estrin scheme count as partial terms, so this
+/// stratum is for PolyN only; see DESIGN 10.7.)
+fn extreme_phase(thorough: bool) -> Phase {
+    let xs: Vec<f64> = vec![1e200, -1e200, 1e-200, -1e-200, 1e160, 1e-160, 1.3e154, 1.5e-154, 3e307, 1e-300];
+    let lens: Vec<usize> = if thorough { (1..=40).collect() } else { vec![1, 2, 3, 5, 8, 9, 10, 11, 12, 13, 16, 17, 32, 33] };
+    let nl = lens.len();
+    let nx = xs.len();
+    Phase {
+        name: "polyn-extreme-arguments",
+        units: nl * nx,
+        split: 1,
+        body: Box::new(move |unit, cx| {
+            let len = lens[unit / nx];
+            let x = xs[unit % nx];
+            // coefficient i = a_i / x^i (rounded) with a_i from a small alphabet, kept only when it is a normal number: every term is ~a_i
+            let amp = [0.0, 1.0, -2.5, 3.0];
+            let mut c = vec![0.0f64; len];
+            for i in 0..len.min(4) {
+                let a = *cx.pick(&amp);
+                let ci = a / x.powi(i as i32);
+                c[i] = if ci.is_normal() && x.powi(i as i32).is_normal() { ci } else { 0.0 };
+            }
+            let got = eval(Form::N(len), &c, x);
+            cx.evals(1);
+            let xd = dy(x);
+            let mut s = Dy::zero();
+            let mut m = Dy::zero();
+            let mut p = Dy::from_i64(1);
+            for &ci in &c {
+                let t = dy(ci).mul(&p);
+                s = s.add(&t);
+                m = m.add(&t.abs());
+                p = p.mul(&xd);
+            }
+            let bound = m.mul_i(4 * (len as i64 + 1)).mul_pow2(-53);
+            if c.iter().filter(|v| **v != 0.0).count() >= 2 {
+                cx.nontrivial();
+            }
+            cx.class(if x.abs() > 1.0 { 0 } else { 1 });
+            let detail = |g: serde_json::Value| json!({"form": format!("PolyN(len {len})"), "coefficients": fjs(&c), "argument": fj(x), "exact_value~": s.to_f64(), "bound~": bound.to_f64(), "got": g});
+            if cx.sampling() {
+                cx.sample(detail(json!(format!("{:?}", got))));
+            }
+            match got {
+                Err(p) => Err(Fail::new(format!("evaluate panicked: {p}"), detail(json!(p)))),
+                Ok(g) if !g.is_finite() => Err(Fail::new("PolyN::evaluate is not finite although every term c_i*x^i is an ordinary number", detail(fj(g)))),
+                Ok(g) => {
+                    if dy(g).sub(&s).abs().le(&bound) { Ok(()) } else { Err(Fail::new("PolyN::evaluate error exceeds the bound at an extreme argument whose terms are all in range", detail(fj(g)))) }
+                }
+            }
+        }),
+        classes: vec![("|x|_huge", true), ("|x|_tiny", true)],
+        bounds: json!({"forms": format!("PolyN of length {:?}", if thorough { "1..40".to_string() } else { "1,2,3,5,8..13,16,17,32,33".to_string() }),
+            "arguments": "{+-1e200, +-1e-200, 1e160, 1e-160, 1.3e154, 1.5e-154, 3e307, 1e-300}", "coefficients": "c_i = a_i/x^i for i < 4 with a_i in {0,1,-2.5,3} (zero when not a normal number), zero beyond: every term is of ordinary size while x*x over/underflows"}),
+    }
+}
+
 pub fn check(thorough: bool, _seed: u64) -> Check {
     Check {
         id: "C01",
         rule: "choice tree: (form, argument) unit x one coefficient per lane; each leaf is one (form, coefficient vector, argument) evaluated by the real evaluate; non-trivial = >=2 non-zero coefficients and argument not in {0,1}; coefficient and argument alphabets are duplicate-free so distinct leaves are distinct inputs".into(),
         assumptions: vec!["f64::ln (glibc) within 1 ulp".into(), "partial terms of the alphabets neither overflow nor underflow".into()],
-        phases: vec![exact_phase(thorough), rich_phase(thorough), log_phase(thorough)],
+        phases: vec![exact_phase(thorough), rich_phase(thorough), log_phase(thorough), extreme_phase(thorough)],
         extra: Default::default(),
         controls: vec![("oracle rejects a value that is off by more than the bound", Box::new(|| {
             let c: [f64; 3] = [1.0, -1.0, 0.1];
